@@ -73,7 +73,9 @@ Opts(v, p) == Vals(v) @@ [udp_port |-> Ports(p).udp, tcp_port |-> Ports(p).tcp]
 
 (* ---------------- server lists for the text setter *)
 \* sL, sLe, sLd: link-local servers on the interface with the longest legal name (15 characters)
-SrvTokens == {"s4", "s4e", "s4d", "s6", "s6e", "s6d", "sl", "sle", "sld", "sL", "sLe", "sLd"}
+\* s4x, s6x: the extreme ports (65535 on both protocols; 1 and 65535), the full width of every port field of the
+\* three text forms, the renderer and the csv round trip
+SrvTokens == {"s4", "s4e", "s4d", "s6", "s6e", "s6d", "sl", "sle", "sld", "sL", "sLe", "sLd", "s4x", "s6x"}
 SrvDesc(t) == CASE t = "s4"  -> Srv("10.0.0.1", 0, 0, "")      [] t = "s4e" -> Srv("10.0.0.2", 54, 54, "")
                 [] t = "s4d" -> Srv("10.0.0.3", 55, 56, "")    [] t = "s6"  -> Srv("2001:db8::1", 0, 0, "")
                 [] t = "s6e" -> Srv("2001:db8::2", 54, 54, "") [] t = "s6d" -> Srv("2001:db8::3", 55, 56, "")
@@ -82,6 +84,8 @@ SrvDesc(t) == CASE t = "s4"  -> Srv("10.0.0.1", 0, 0, "")      [] t = "s4e" -> S
                 [] t = "sL"  -> Srv("fe80::4", 0, 0, "verylongiface01")
                 [] t = "sLe" -> Srv("fe80::5", 54, 54, "verylongiface01")
                 [] t = "sLd" -> Srv("fe80::6", 55, 56, "verylongiface01")
+                [] t = "s4x" -> Srv("10.0.0.4", MaxPort, MaxPort, "")
+                [] t = "s6x" -> Srv("2001:db8::4", 1, MaxPort, "")
 Descs(ts) == [k \in 1..Len(ts) |-> SrvDesc(ts[k])]
 NoRepeat(ts) == \A i, j \in 1..Len(ts) : i # j => ts[i] # ts[j]
 Lists(n) == {ts \in UNION {[1..k -> SrvTokens] : k \in 1..n} : NoRepeat(ts)}
